@@ -139,7 +139,7 @@ def _mk(p, T, tseed, quoted, sf):
 
 
 IDEM_CORPUS = [
-    # FX-C02-TRAILINGWS (formerly KF-C02-2), FX-C02-EMPTYAUTH (KF-C02-3), FX-C01-IPBRACKETS, FX-C01-USERBRACKETS
+    # FX-C02-16f182c (formerly KF-C02-2), FX-C02-f918741 (KF-C02-3), FX-C01-feb1ed1, FX-C01-ca9f3e6
     "http://a.com\xa0/", "http://A1 /", "http://a.com\u2028?", "http://a.com\u3000:80/", "https://u@a.com\xa0:443?#",
     "http://[v1.x\xa0]/", "custom:///p", "zz://?q", "custom://", "http://[v1.[]/", "http://x[v1.[]/", "http://[V1.x]/",
     "http://u[::1%7A]@a.com/", "http:///p", "http://@/p",
